@@ -85,13 +85,31 @@ func signature(name string, i int, msg []byte) ([]byte, bool) {
 		sym.Assume(ed25519.Verify(ed25519.PublicKey(pub(i)), msg, sig) == genuine)
 		return sig, genuine
 	}
+	var out []byte
 	if genuine {
-		return ed25519.Sign(priv(i), msg), true
+		out = ed25519.Sign(priv(i), msg)
+	} else {
+		out = ed25519.Sign(priv(i), msg)
+		out[0] ^= 1
+		// the model may make a forged signature byte-identical to one supplied earlier under
+		// another key: natively that is the earlier witness's real signature, reused
+		for _, e := range earlierSigs {
+			if e.key != i && string(e.model) == string(sig) {
+				out = e.native
+			}
+		}
 	}
-	s := ed25519.Sign(priv(i), msg)
-	s[0] ^= 1
-	return s, false
+	earlierSigs = append(earlierSigs, sigRecord{i, append([]byte{}, sig...), out})
+	return out, genuine
 }
+
+type sigRecord struct {
+	key    int
+	model  []byte
+	native []byte
+}
+
+var earlierSigs []sigRecord
 
 func keyAddr(i int) common.Address { return keyAddrT(i, 6) }
 
@@ -150,6 +168,7 @@ func scriptAddrT(t byte) common.Address {
 // supplied key (Byron inputs: by a bootstrap witness deriving the address root), and every
 // required signer has a witness.
 func Signatures() {
+	earlierSigs = nil
 	nKeys = sym.Param("keys")
 	nWit, nIn := sym.Param("witnesses"), sym.Param("inputs")
 	tx := stubTx{hash: common.Blake2b256(sym.Bytes("txid", 32))}
